@@ -363,7 +363,7 @@ pub fn inert(src: &mut Src, g: &G) -> String {
         4 => {
             // CSI with unimplemented final
             let fin = *src.pick(&['N', 'O', 'Q', 'R', 'U', 'V', 'Y', '[', '\\', ']', '^', '_', 'c', 'i', 'j', 'k', 'n', 'o', 'p', 'q', 'v', 'w', 'x', 'y', 'z', '{', '|', '}', '~']);
-            format!("{}{}{}", csi(src, g), *src.pick(&["", "0", "1", "5;6", "2;3;4"]), fin)
+            format!("{}{}{}", csi(src, g), *src.pick(&["", "0", "1", "5;6", "2;3;4", "1:2:3:4:5:6:7", "4::::::", "70000", "1;2;3;4;5;6;7;8;9;10;11;12;13;14;15;16;17;18;19;20;21;22;23;24;25;26;27;28;29;30;31;32;33"]), fin)
         }
         5 => {
             // private markers
